@@ -109,7 +109,41 @@ def mixed_container_fails(case):
     return None
 
 
+def traced_container_fails(case):
+    """ndarray2utpm on a container of TRACED polynomials (its prototype search accepts tracer nodes): the traced value equals the
+    conversion of the untraced elements, also with a plain constant in the first slot, and the recorded graph replays"""
+    x0 = np.array(case['x'])
+    kind = case['kind']
+
+    def build(x):
+        els = [[x[0] * x[1], x[2]], [x[1], x[0] * x[2]]]
+        if kind == 'const-first':
+            els[0][0] = 2.0
+        return utils.ndarray2utpm(els)
+    ux = UTPM(x0.copy())
+    want = build(ux)
+    cg = algopy.CGraph()
+    fx = algopy.Function(UTPM(x0.copy()))
+    try:
+        fy = build(fx)
+    except Exception as ex:
+        return 'traced-container-exception: ndarray2utpm of traced elements (%s) raised %s; the same container of untraced polynomials converts' % (
+            kind, type(ex).__name__ + ':' + str(ex)[:60])
+    cg.trace_off()
+    cg.independentFunctionList = [fx]
+    cg.dependentFunctionList = [fy]
+    if not isinstance(fy, algopy.Function) or not np.array_equal(fy.x.data, want.data):
+        return 'traced-container-value: the traced conversion differs from the conversion of the untraced elements (%s)' % kind
+    x1 = x0 + 0.25
+    got = cg.function([UTPM(x1.copy())])[0]
+    if not np.array_equal(got.data, build(UTPM(x1.copy())).data):
+        return 'traced-container-replay: the replay at another point differs from the direct conversion (%s)' % kind
+    return None
+
+
 def run_one(ctx, case):
+    if case['op'] == 'traced-container':
+        return traced_container_fails(case)
     k = case['op']
     if k == 'vecsym-length':
         return vecsym_length_fails(case)
@@ -396,6 +430,17 @@ def run(ctx):
             f = 'exception-%s: %s' % (case['op'], type(ex).__name__ + ':' + str(ex)[:100])
         if f:
             ctx.report(case, 'failure', f)
+    for kind in ('plain', 'const-first'):
+        for D_, P_ in ((1, 1), (3, 2)):
+            case = {'op': 'traced-container', 'kind': kind, 'D': D_, 'P': P_, 'x': rand_coeffs(ctx.rng, (D_, P_, 3), -2, 2)}
+            ctx.evaluations += 1
+            ctx.count('op=traced-container')
+            try:
+                f = run_one(ctx, case)
+            except Exception as ex:
+                f = 'exception-%s: %s' % (case['op'], type(ex).__name__ + ':' + str(ex)[:100])
+            if f:
+                ctx.report(case, 'failure', f)
     # every shift amount from -(2D+2) to 2D+2 for small D, on every run
     for D_ in (1, 2, 3):
         for s_ in range(-2 * D_ - 2, 2 * D_ + 3):
